@@ -112,8 +112,10 @@ prop("C16", level="other",
                 "re-established by every mutating method, hence true after EVERY finite call sequence): layer(n) is rejected iff a layer is pending or n exists; containing_modules(str | list) is "
                 "rejected iff no layer is open or some name is already assigned to a layer -- whether passed as a string or inside a list -- and otherwise stores exactly the supplied names; "
                 "have_modules_with_names_matching likewise; with_layer changes nothing. LayerRule: based_on accepts exactly one architecture; every verb / access method raises "
-                "ImproperlyConfigured exactly when layers_that has not been called. BOUNDED: layers_that / are_named (functools.partial, exactly-one-subject guard) and the ORDER of the "
-                "listing (dict insertion order): every builder call sequence up to the stated length is run on the real classes and compared, call by call, with an independent specification automaton.",
+                "ImproperlyConfigured exactly when layers_that has not been called; layers_that / are_named (exactly one subject layer, every named layer must be defined, exactly the filters of the named layers are "
+                "appended on the side being specified) and Rule._add_modules / _append_modules (the parallel lists of names and closures: every module keeps ITS OWN name / regex kind -- a late-binding "
+                "rewrite refutes the loop invariant). BOUNDED: the ORDER of the listing (dict insertion order) and functools.partial: every builder call sequence up to the stated length is run on the real "
+                "classes and compared, call by call, with an independent specification automaton.",
      level_note="Assumed: dict / set / list semantics as modelled by pyvc (len() of a duplicate-free comprehension = cardinality). Reference automaton written from the property text; the sequences are "
                 "exhaustive up to length 4 (quick) / 5 (thorough) over an alphabet that forces duplicates.",
      technique="contract-based deductive verification (class invariant + per-method contracts, VCs by pyvc, z3/cvc5) + bounded stand-in: exhaustive short call sequences on the real builders against a specification automaton",
